@@ -110,11 +110,37 @@ Record mcase := { m_tables : N; m_flush : bool; m_compactions : list bool; m_rea
     acknowledged value is readable, Close returned. *)
 Record wcase := { w_writers : N; w_ops : N; w_returned : N; w_reads_ok : bool; w_close : bool }.
 
+(** Fifth kind: write, Close, reopen, one transactional commit, read back -
+    executed in a CHILD process (utils.AssertTrue ends the process and cannot be
+    caught).  [r_maxver] is the largest version the child stored before the
+    reopen; [r_last] the last stage it completed.  The model is
+    [TxnOracle.commit_after_open] (64-bit arithmetic of initCommitState /
+    newCommitTs).  Known finding C37-F2 (class 2): the store holds the plain API's
+    sentinel version, the model predicts that the timestamp counter wraps and the
+    assertion fails, and the child died exactly in Commit. *)
+Inductive rstage := RsStart | RsOpen1 | RsWrite | RsClose | RsOpen2 | RsBegin | RsSet | RsCommit | RsRead | RsDone.
+Record rcase := { r_maxver : N; r_last : rstage; r_exit_ok : bool; r_commit_ok : bool; r_read_ok : bool }.
+
+Definition is_stage_set (x : rstage) : bool := match x with RsSet => true | _ => false end.
+Definition is_stage_done (x : rstage) : bool := match x with RsDone => true | _ => false end.
+
+Definition died_in_commit (c : rcase) : bool := is_stage_set (r_last c) && negb (r_exit_ok c).
+Definition finished_ok (c : rcase) : bool :=
+  is_stage_done (r_last c) && r_exit_ok c && r_commit_ok c && r_read_ok c.
+
+Definition check_reopen (c : rcase) : verdict :=
+  let fatal := match TxnOracle.commit_after_open (r_maxver c) with TxnOracle.RcFatal => true | _ => false end in
+  let mism := if fatal then negb (died_in_commit c) else negb (finished_ok c) in
+  let viol := negb (finished_ok c) in
+  mk_verdict mism viol
+    (if viol && died_in_commit c && (r_maxver c =? TxnOracle.sentinel_version) && fatal then 2 else 0).
+
 Inductive case :=
 | SchedCase (c : scase)
 | TxnCase (c : RunTxn.case)
 | MaintCase (c : mcase)
-| WritersCase (c : wcase).
+| WritersCase (c : wcase)
+| ReopenCase (c : rcase).
 
 Definition check (c : case) : verdict :=
   match c with
@@ -128,6 +154,7 @@ Definition check (c : case) : verdict :=
   | WritersCase c =>
       mk_verdict (negb (w_reads_ok c))
                  (negb ((w_returned c =? w_writers c * w_ops c) && w_close c)) 0
+  | ReopenCase c => check_reopen c
   end.
 
 (* compact constructors *)
@@ -137,6 +164,8 @@ Definition Gr (t : N) (ran : bool) (p : list N) (r : list N) (cl : bool) : group
 Definition Cs (p : list (list cop)) (g : list group) (r : list (list bool)) : case :=
   SchedCase {| c_progs := p; c_groups := g; c_results := r |}.
 
+Definition Rp (maxver : N) (last : rstage) (exit_ok commit_ok read_ok : bool) : case :=
+  ReopenCase {| r_maxver := maxver; r_last := last; r_exit_ok := exit_ok; r_commit_ok := commit_ok; r_read_ok := read_ok |}.
 Definition Wr (writers ops returned : N) (reads close : bool) : case :=
   WritersCase {| w_writers := writers; w_ops := ops; w_returned := returned; w_reads_ok := reads; w_close := close |}.
 Definition Mt (tables : N) (flush : bool) (comp : list bool) (reads close : bool) : case :=
